@@ -135,7 +135,9 @@ def gen(rng, tier, index):
             loader = rng.randrange(clear + 1, begin - 45)
         else:
             loader = rng.randrange(e, 49152 - 45)
-        banks = sorted(rng.sample([0, 1, 3, 4, 6, 7], rng.randrange(0, 7)))
+        banks = rng.sample([0, 1, 3, 4, 6, 7], rng.randrange(0, 7))      # any order: --banks is a list, not a set
+        if rng.random() < 0.4:
+            banks.sort()
         use_banks = rng.random() < 0.7
         scn.update({'bank_seeds': [rng.getrandbits(48) for _ in range(8)], 'begin': begin, 'end': end, 'clear': clear, 'loader': loader,
                     'start': rng.choice([a for a in (rng.randrange(begin, e) for _ in range(8)) if not loader <= a < loader + 46] or [begin]), 'o7ffd': rng.choice((0x10, 0x11, 0x17, 0x13, rng.randrange(64), rng.randrange(32))),
